@@ -26,6 +26,7 @@ def c17(run):
     r_file.run_track_order(run, P)
     from rules import r_misc12
     r_misc12.run_observe_codes_agree(run, P)
+    r_misc12.run_copy_loop_exits(run, P)
     from rules import r_cmpbound as _cb
     _cb.run_identity(run, P)
     run.min_instances('R-FILE-MODE', 14)
@@ -298,6 +299,8 @@ def c16(run):
     run.min_instances('R-URI-CLASS', 2)
     run.assumptions = ASSUME_COMMON + ["agreement with RFC 3986 on all strings, dot-segment resolution and the single-length two-cursor scanner "
                                        "coap_split_uri_sub are NOT decided"]
+    from rules import r_misc12
+    r_misc12.run_scan_cursor(run, P)
     return run.finish(
         "URI helpers: every look-ahead read of the length-delimited scanners (check_segment, dots, strnchr, coap_replace_percents, "
         "coap_host_is_unix_domain) is proven inside the delimited bytes by a cursor/remaining-length analysis, and decode_segment is only called "
@@ -588,6 +591,7 @@ def c02(run):
     _rw5.run_h(run, P)                   # the declared length of a stream message is computed without wrapping before it is compared with the limits
     r_parsegate.run(run, P)
     r_fixup.run_stale(run, P)
+    r_fixup.run_pairing(run, P)          # the in-place editors also run on RECEIVED requests (coap_option_check_critical() re-encodes Block2): payload pointer and size move together
     from rules import r_cmpbound
     r_cmpbound.run(run, P)
     run.min_instances('R-CMP-BOUND', 40)
@@ -664,6 +668,8 @@ def c11(run):
     r_observe.run_delete_all(run, P)
     r_observe.run_fail_count(run, P)
     r_observe.run_counter_owner(run, P)
+    from rules import r_cnt
+    r_cnt.run_dequeue(run, P)            # a Reset (or ACK) that retires a Confirmable notification gives the NSTART slot back: otherwise every sixth notification is postponed for ever
     from rules import r_misc12
     run.require_count(r_misc12.run_request_flag(run, P) >= 1 or run.cfg != 'base', 'R-LOST-STORE (request flag): no test-and-clear of a request flag found (expected observe_pending)')
     from rules import r_pairargs
